@@ -10,7 +10,7 @@ TRUSTED = [
 ]
 
 Q_STORY = dict(MaxStories=4, MaxSrc=3, MaxCarried=3)
-T_STORY = dict(MaxStories=5, MaxSrc=4, MaxCarried=3, Layouts=["plain", "between", "trailing", "both", "nt1", "nt2", "blank", "attr"])
+T_STORY = dict(MaxStories=5, MaxSrc=4, MaxCarried=3, Layouts=["plain", "between", "trailing", "both", "nt1", "nt2", "blank", "attr", "leadlast"])
 Q_ITEM = dict(MaxItems=4, MaxSrc=3, MaxCarried=2)
 T_ITEM = dict(MaxItems=5, MaxSrc=4, MaxCarried=3)
 
@@ -88,10 +88,12 @@ def life_plans(tier):
     if tier == "quick":
         return [dict(name="all2", mode="alphabet", theme="all", objs=[1], depth=2),
                 dict(name="carry3", mode="alphabet", theme="carry", objs=[1], depth=3),
+                dict(name="share3", mode="alphabet", theme="share", objs=[1, 2], depth=3),
                 dict(name="all3", mode="alphabet", theme="all", objs=[1], depth=3, cap=1500),
                 dict(name="random", mode="random", objs=[1, 2], depth=8, num=40, cap=400)]
     return [dict(name="all3", mode="alphabet", theme="all", objs=[1], depth=3),
             dict(name="carry4", mode="alphabet", theme="carry", objs=[1], depth=4),
+            dict(name="share4", mode="alphabet", theme="share", objs=[1, 2], depth=4),
             dict(name="story4", mode="alphabet", theme="story", objs=[1], depth=4),
             dict(name="item4", mode="alphabet", theme="item", objs=[1], depth=4),
             dict(name="all4", mode="alphabet", theme="all", objs=[1], depth=4, cap=20000),
@@ -104,10 +106,10 @@ def lite_plans(tier, prop):
     simulated behaviours"""
     if tier != "quick":
         return life_plans(tier)
-    themed = {"C01": "story", "C02": "item", "C04": "carry"}.get(prop)
+    themed = {"C01": "story", "C02": "item", "C04": "carry", "C03": "share"}.get(prop)
     plans = [dict(name="all2", mode="alphabet", theme="all", objs=[1], depth=2)]
     if themed:
-        plans.append(dict(name=themed + "3", mode="alphabet", theme=themed, objs=[1], depth=3))
+        plans.append(dict(name=themed + "3", mode="alphabet", theme=themed, objs=[1, 2] if themed == "share" else [1], depth=3))
     plans.append(dict(name="random", mode="random", objs=[1, 2], depth=8, num=25, cap=200))
     return plans
 
